@@ -97,7 +97,7 @@ def run_cases(prop, cases):
             il, order = split_order(il)
             impl2.append(il)
             c['order'] = order
-            mlines.append(props.reorder_line(c, order) if order else c['line'])
+            mlines.append(props.reorder_line(c, order) if order else c.get('model_line', c['line']))
         impl = impl2
     model = infra.run_driver(V + '/bin/mldriver', mlines)
     return impl, model
@@ -110,6 +110,11 @@ def evaluate(prop, cases, impl, model):
         c['impl'] = il
         c['model'] = ml
         c['spec'] = spec_fields(ml)
+        if il.split(' ')[0] == 'HANG-SKIPPED':
+            # the driver stopped calling the library after several calls that never returned (each of
+            # those is reported as HANG): this case was not evaluated
+            c['nontrivial'] = False
+            continue
         cmpf = prop.compare or default_compare
         d = cmpf(c, il, ml, prop.multiset) if prop.compare is None else prop.compare(c, il, ml)
         if d:
